@@ -279,6 +279,9 @@ Proof.
   apply Z.eqb_eq in Hn. split; auto. now apply in_rev.
 Qed.
 
+Lemma RF_eq : RF = S (S 6).
+Proof. reflexivity. Qed.
+
 Lemma read_S : forall n reg st f,
   read (S n) reg st f =
   match feat_raw (s_base st) f with
@@ -334,6 +337,8 @@ Lemma read_S : forall n reg st f,
   end.
 Proof. reflexivity. Qed.
 
+Opaque AF RF.
+
 (* the fold of AncillaryFeature.hash *)
 Lemma fold_hash_err : forall rd fs s vs k,
   fold_left (hash_step rd) fs (s, vs, Some k) = (s, vs, Some k).
@@ -375,9 +380,9 @@ Proof.
                 (fun s g Hs => IH s g Hs) (r_feats r) st [] None HI) as HI1.
   destruct (fold_left (hash_step (read n reg)) (r_feats r) (st, [], None))
     as [[st1 fvals] err] eqn:EF.
-  simpl in HI1.
+  cbn [fst] in HI1.
   destruct err as [k|]; [exact HI1|].
-  apply fold_hash_len in EF. simpl in EF.
+  apply fold_hash_len in EF. cbn [length Nat.add] in EF.
   cbv zeta.
   set (items := map ItFeat fvals ++
          map (fun k => ItCfg k match cfg (s_base st1) k with
@@ -394,28 +399,29 @@ Proof.
   - (* compute_emodulus *)
     apply Z.eqb_eq in E1.
     destruct (emod_outcome _ _ _ _) as [sc|e]; [|exact HI1].
-    intros o hv Ho. simpl in Ho. apply store_in in Ho.
+    intros o hv Ho. cbn [fst s_cache] in Ho. apply store_in in Ho.
     destruct Ho as [Ho|[Ho ->]]; [now apply HI1|].
     exists r, st1. split; [exact Hin|]. split; [now apply in_memZ|].
-    split; [exact Hshape|]. simpl.
+    split; [exact Hshape|]. cbn [fst snd].
     intros H0. rewrite H0 in E1. discriminate E1.
   - destruct (r_mkind r =? 2) eqn:E2.
     + apply Z.eqb_eq in E2.
       destruct (ctc_missing AF reg st1); [exact HI1|].
-      intros o hv Ho. simpl in Ho. apply store_in in Ho.
+      intros o hv Ho. cbn [fst s_cache] in Ho. apply store_in in Ho.
       destruct Ho as [Ho|[Ho ->]]; [now apply HI1|].
       exists r, st1. split; [exact Hin|]. split; [now apply in_memZ|].
-      split; [exact Hshape|]. simpl.
+      split; [exact Hshape|]. cbn [fst snd].
       intros H0. rewrite H0 in E2. discriminate E2.
-    + intros o hv Ho. simpl in Ho. apply store_in in Ho.
+    + intros o hv Ho. cbn [fst s_cache] in Ho. apply store_in in Ho.
       destruct Ho as [Ho|[Ho ->]]; [now apply HI1|].
       exists r, st1. split; [exact Hin|]. split; [now apply in_memZ|].
-      split; [exact Hshape|]. simpl. intros _. reflexivity.
+      split; [exact Hshape|]. cbn [fst snd]. intros _. reflexivity.
 Qed.
 
 Lemma step_inv : forall reg st o, Inv reg st -> Inv reg (fst (step reg st o)).
 Proof.
-  intros reg st [k v|k|f v|f|f|] HI; simpl; try exact HI.
+  intros reg st [k v|k|f v|f|f|] HI; cbn [step fst s_cache];
+    try exact HI.
   pose proof (read_inv reg RF st f HI) as H.
   destruct (read RF reg st f) as [st' r].
   destruct (read RF reg (clear st) f) as [s0 r0]. exact H.
@@ -438,16 +444,25 @@ Definition uses_covered (r : recipe) : bool := forallb (covered r) (r_uses r).
 Definition raw_or0 (b : base) (g : Z) : val :=
   Raw (match feat_raw b g with Some i => i | None => 0 end).
 
+Lemma hash_step_raw : forall reg n st vs g i,
+  feat_raw (s_base st) g = Some i ->
+  hash_step (read (S n) reg) (st, vs, None) g = (st, vs ++ [Raw i], None).
+Proof.
+  intros reg n st vs g i H. unfold hash_step. rewrite read_S, H. reflexivity.
+Qed.
+
 Lemma fold_flat : forall reg n fs st vs,
   forallb (in_base (s_base st)) fs = true ->
   fold_left (hash_step (read (S n) reg)) fs (st, vs, None)
   = (st, vs ++ map (raw_or0 (s_base st)) fs, None).
 Proof.
-  intros reg n. induction fs as [|g fs IH]; simpl; intros st vs H.
+  intros reg n. induction fs as [|g fs IH]; cbn [fold_left forallb map];
+    intros st vs H.
   - now rewrite app_nil_r.
   - apply andb_prop in H. destruct H as [Hg Hfs].
-    unfold in_base in Hg. rewrite read_S. unfold raw_or0 at 1.
-    destruct (feat_raw (s_base st) g) as [i|]; [|discriminate Hg].
+    unfold in_base in Hg. unfold raw_or0 at 1.
+    destruct (feat_raw (s_base st) g) as [i|] eqn:Eg; [|discriminate Hg].
+    rewrite (hash_step_raw reg n st vs g i Eg).
     rewrite IH by exact Hfs. now rewrite <- app_assoc.
 Qed.
 
@@ -497,21 +512,20 @@ Theorem read_coherent_flat : forall reg st f,
   snd (read RF reg st f) = snd (read RF reg (clear st) f).
 Proof.
   intros reg st f Hco HI Hsel Hg.
-  change RF with (S 7). rewrite !read_S. simpl s_base.
+  rewrite RF_eq. rewrite !read_S. cbn [clear s_base s_cache].
   destruct (feat_raw (s_base st) f); [reflexivity|].
   rewrite <- Hsel.
   destruct (select AF reg st f) as [r|] eqn:Es; [|reflexivity].
   destruct (Hg r eq_refl) as [Hflat [Hcov [Hmk [Hrf Hex]]]].
   destruct (select_some _ _ _ _ _ Es) as [Hin Hname].
-  change 7%nat with (S 6).
   rewrite (fold_flat reg 6 (r_feats r) st [] Hflat).
   assert (Hflat' : forallb (in_base (s_base (clear st))) (r_feats r) = true)
     by exact Hflat.
   rewrite (fold_flat reg 6 (r_feats r) (clear st) [] Hflat').
-  cbv zeta. simpl s_base. simpl s_cache. rewrite Hrf.
+  cbv zeta. cbn [clear s_base s_cache assoc]. rewrite Hrf.
   assert (Hm1 : (r_mkind r =? 1) = false) by (rewrite Hmk; reflexivity).
   assert (Hm2 : (r_mkind r =? 2) = false) by (rewrite Hmk; reflexivity).
-  rewrite Hm1, Hm2. simpl app at 1.
+  rewrite Hm1, Hm2.
   set (items := map ItFeat ([] ++ map (raw_or0 (s_base st)) (r_feats r)) ++
          map (fun k => ItCfg k match cfg (s_base st) k with
                                | Some v => v | None => 0 end) (r_keys r) ++ []).
@@ -528,10 +542,10 @@ Proof.
   destruct (assoc f (s_cache st)) as [[h v]|] eqn:Ea.
   - destruct (items_eqb h items) eqn:Eh.
     + (* cache hit: the slot holds what would be computed now *)
-      simpl. f_equal.
+      cbn [snd app]. f_equal.
       apply items_eqb_eq in Eh. subst h.
       apply assoc_in in Ea. destruct (HI _ _ Ea) as [r0 [st0 [Hin0 [Hout [Hs0 Hv]]]]].
-      simpl in Hs0, Hv.
+      cbn [fst snd] in Hs0, Hv.
       assert (Hcol : collidable r0 r = true).
       { apply (shape_collidable r0 r items); auto. now rewrite Hname. }
       pose proof (collide_ok_use reg r0 r Hco Hin0 Hin Hcol) as Hsame.
@@ -549,8 +563,8 @@ Proof.
       { unfold uses_covered in Hcov. rewrite forallb_forall in Hcov. auto. }
       destruct (covered_found r items u Hex Hshape Hc) as [w Hw].
       now rewrite Hw.
-    + simpl. f_equal. f_equal. apply Hview.
-  - simpl. f_equal. f_equal. apply Hview.
+    + rewrite (Hview st (clear st)). reflexivity.
+  - rewrite (Hview st (clear st)). reflexivity.
 Qed.
 
 (* the same after any history, starting from any freshly opened dataset *)
